@@ -733,7 +733,7 @@ func (p *Program) callOrdinal(site ssa.Instruction, name string) int {
 func kindMatches(in ssa.Instruction, kind string) bool {
 	switch x := in.(type) {
 	case *ssa.Call:
-		if bi, ok := x.Call.Value.(*ssa.Builtin); ok && bi.Name() == kind && (kind == "append" || kind == "copy" || kind == "delete") {
+		if bi, ok := x.Call.Value.(*ssa.Builtin); ok && bi.Name() == kind && (kind == "append" || kind == "copy" || kind == "delete" || kind == "close") {
 			return true
 		}
 	case *ssa.MapUpdate:
@@ -748,6 +748,10 @@ func kindMatches(in ssa.Instruction, kind string) bool {
 		return kind == "select"
 	case *ssa.Store:
 		return kind == "store" && isElemOrFieldStore(x)
+	case *ssa.MakeChan:
+		return kind == "makechan"
+	case *ssa.UnOp:
+		return kind == "recv" && x.Op == token.ARROW
 	}
 	return false
 }
